@@ -8,6 +8,7 @@ compiles — and finally that the pristine tree builds again), but the place is 
 `ciphersuites.py` defines several methods of the same name.  `method = None` addresses the class-level statements.
 
   tie_selftest_bls.py --repo /repo --lean /path/to/lean [--only REGEX] [--work /tmp/tie_selftest_bls]
+  tie_selftest_bls.py --repo <tree with refactoring NAME applied> --refactored NAME --lean /path/to/lean
 """
 import argparse
 import ast
@@ -122,6 +123,59 @@ MUTATIONS = [
     ("keygen-info", BASE, "KeyGen", "key_info + i2osp(l, 2)", "i2osp(l, 2) + key_info", 0),
 ]
 
+# Mutations of REFACTORED trees (behaviour-preserving rewrites of ciphersuites.py that the translator normalises or the tie
+# proofs absorb): the same one-place changes must still be caught when the source is written in the new spelling.  The key is
+# the name of the refactoring (`--refactored NAME`, with `--repo` pointing at a tree to which that refactoring has been applied).
+RMUTATIONS = {
+    # refactorings/C03-g5-aggregate-all-and-basic-unique
+    "C03": [
+        ("r-all-any", BASE, "Aggregate", "if not all(", "if not any(", 0),
+        ("r-all-neg", BASE, "Aggregate", "all(cls._is_valid_signature(sig)", "all(not cls._is_valid_signature(sig)", 0),
+        ("r-all-drop", BASE, "Aggregate", "        if not all(cls._is_valid_signature(sig) for sig in signatures):\n"
+         "            raise ValidationError(\"Invalid signature\")\n", "", 0),
+        ("r-all-exc", BASE, "Aggregate", 'raise ValidationError("Invalid signature")', 'raise ValueError("Invalid signature")', 0),
+        ("r-sum-order", BASE, "Aggregate", "add(running_sum, signature_to_G2(sig))", "add(signature_to_G2(sig), running_sum)", 0),
+        ("r-unique-ne", BASIC, "AggregateVerify", "len(messages) == len(set(messages))", "len(messages) != len(set(messages))", 0),
+        ("r-unique-or", BASIC, "AggregateVerify", "messages_are_unique and cls", "messages_are_unique or cls", 0),
+        ("r-unique-drop", BASIC, "AggregateVerify", "return messages_are_unique and cls", "return cls", 0),
+        ("r-unique-set", BASIC, "AggregateVerify", "set(messages)", "set(PKs)", 0),
+    ],
+    # refactorings/C04-g5-keyvalidate-aggverify-tidy
+    "C04": [
+        ("r-kv-noneg", BASE, "KeyValidate", "return not is_inf(point) and", "return is_inf(point) and", 0),
+        ("r-kv-or", BASE, "KeyValidate", "not is_inf(point) and subgroup_check(point)", "not is_inf(point) or subgroup_check(point)", 0),
+        ("r-kv-nosub", BASE, "KeyValidate", "not is_inf(point) and subgroup_check(point)", "not is_inf(point)", 0),
+        ("r-kv-noinf", BASE, "KeyValidate", "not is_inf(point) and subgroup_check(point)", "subgroup_check(point)", 0),
+        ("r-agg-len", BASE, "_CoreAggregateVerify", "if len(PKs) != len(messages):", "if len(PKs) == len(messages):", 0),
+        ("r-agg-allpk-iter", BASE, "_CoreAggregateVerify", "for pk in PKs):", "for pk in messages):", 0),
+        ("r-agg-allpk-any", BASE, "_CoreAggregateVerify", "if not all(cls._is_valid_pubkey(pk)", "if not any(cls._is_valid_pubkey(pk)", 0),
+        ("r-agg-allpk-drop", BASE, "_CoreAggregateVerify", "            if not all(cls._is_valid_pubkey(pk) for pk in PKs):\n"
+         "                raise ValidationError(\"Invalid public key\")\n", "", 0),
+        ("r-agg-allpk-exc", BASE, "_CoreAggregateVerify", 'raise ValidationError("Invalid public key")', 'raise TypeError("Invalid public key")', 0),
+    ],
+    # refactorings/C01-g5-keygen-coreverify-locals (the KeyGen hunk is also that of C16-g5-keygen-hkdf-tidy)
+    "C01": [
+        ("r-keygen-L", BASE, "KeyGen", "1.5 * ceil", "2 * ceil", 0),
+        ("r-keygen-i2osp", BASE, "KeyGen", "i2osp(okm_length, 2)", "i2osp(okm_length, 1)", 0),
+        ("r-keygen-len", BASE, "KeyGen", "i2osp(okm_length, 2), okm_length)", "i2osp(okm_length, 2), okm_length + 1)", 0),
+        ("r-keygen-mod", BASE, "KeyGen", "% curve_order", "% (curve_order - 1)", 0),
+        ("r-keygen-cond", BASE, "KeyGen", "while SK == 0:", "while SK != 0:", 0),
+        ("r-keygen-nohash", BASE, "KeyGen", "            salt = cls.xmd_hash_function(salt).digest()\n", "", 0),
+        ("r-cv-g1", BASE, "_CoreVerify", "pairing(signature_point, G1,", "pairing(signature_point, neg(G1),", 0),
+        ("r-cv-noneg", BASE, "_CoreVerify", "neg(pubkey_to_G1(PK))", "pubkey_to_G1(PK)", 0),
+        ("r-cv-product", BASE, "_CoreVerify", "signature_pairing * message_pairing", "signature_pairing * signature_pairing", 0),
+        ("r-cv-ne", BASE, "_CoreVerify", "final_exponentiate(product) == FQ12.one()", "final_exponentiate(product) != FQ12.one()", 0),
+        ("r-cv-fe", BASE, "_CoreVerify", "final_exponentiate=False", "final_exponentiate=True", 0),
+    ],
+    # refactorings/C09-g5-inline-sign-serialization (ciphersuites.py part)
+    "C09": [
+        ("r-cs-plus", BASE, "_CoreSign", "multiply(hashed_message, SK)", "multiply(hashed_message, SK + 1)", 0),
+        ("r-cs-args", BASE, "_CoreSign", "hash_to_G2(message, DST,", "hash_to_G2(DST, message,", 0),
+        ("r-augsign-order", AUG, "Sign", "cls.SkToPk(SK) + message", "message + cls.SkToPk(SK)", 0),
+        ("r-augsign-nopk", AUG, "Sign", "augmented_message = cls.SkToPk(SK) + message", "augmented_message = message", 0),
+    ],
+}
+
 
 def span(src, cname, mname):
     tree = ast.parse(src)
@@ -159,12 +213,15 @@ def main():
     ap.add_argument("--work", default="/tmp/tie_selftest_bls")
     ap.add_argument("--only", default=None, help="regex on mutation ids")
     ap.add_argument("--target", default="PyEcc.Props.TieBlsAgg")
+    ap.add_argument("--refactored", default=None, choices=sorted(RMUTATIONS),
+                    help="use the mutation list for this refactoring (--repo must be a tree with that refactoring applied)")
     a = ap.parse_args()
     gen_dir = os.path.join(a.lean, "PyEcc", "Gen")
     env = dict(os.environ)
     env["PATH"] = "/opt/veriftools/lean/bin:" + env["PATH"]
     results = []
-    muts = [m for m in MUTATIONS if a.only is None or re.search(a.only, m[0])]
+    pool = MUTATIONS if a.refactored is None else RMUTATIONS[a.refactored]
+    muts = [m for m in pool if a.only is None or re.search(a.only, m[0])]
     for mid, cname, mname, old, new, occ in muts:
         repo_mut = os.path.join(a.work, "repo_mut")
         shutil.rmtree(repo_mut, ignore_errors=True)
